@@ -99,14 +99,14 @@ package controllers
 //@   requires [C11] len(phase.Class) == 0
 //@   ghost failedSoFar() := old(failedSoFar()) || err != nil || !(len(res.PhaseName) == 0 && len(res.FailedProbes) == 0)
 //@   ensures [C03] failedSoFar() == (old(failedSoFar()) || err != nil || !(len(res.PhaseName) == 0 && len(res.FailedProbes) == 0))
-//@   loop 1 invariant 0 <= idx && failedSoFar() == old(failedSoFar())
-//@   loop 2 invariant !failedSoFar() && pfCheckedArr() != 0 && pfCheckedArr() == sarr(desiredObjects)
-//@   loop 2 invariant 0 <= idx && idx <= len(phase.Objects)
-//@   loop 2 invariant [C03] rec.probe == probe
-//@   loop 2 invariant [C03] len(rec.failures) == 0 ==> len(actualObjects) == idx
-//@   loop 2 invariant [C03] cap(actualObjects) == 0 || allocated(sarr(actualObjects))
-//@   loop 2 invariant [C03] forall j int :: 0 <= j && j < len(actualObjects) ==> hastype("*k8s.io/apimachinery/pkg/apis/meta/v1/unstructured.Unstructured", actualObjects[j])
-//@   loop 2 invariant [C03] len(rec.failures) == 0 ==> (forall j int :: 0 <= j && j < len(actualObjects) ==> probedOK(actualObjects[j]))
+//@   loop @desiredObject invariant 0 <= idx && failedSoFar() == old(failedSoFar())
+//@   loop @reconcilePhaseObject invariant !failedSoFar() && pfCheckedArr() != 0 && pfCheckedArr() == sarr(desiredObjects)
+//@   loop @reconcilePhaseObject invariant 0 <= idx && idx <= len(phase.Objects)
+//@   loop @reconcilePhaseObject invariant [C03] rec.probe == probe
+//@   loop @reconcilePhaseObject invariant [C03] len(rec.failures) == 0 ==> len(actualObjects) == idx
+//@   loop @reconcilePhaseObject invariant [C03] cap(actualObjects) == 0 || allocated(sarr(actualObjects))
+//@   loop @reconcilePhaseObject invariant [C03] forall j int :: 0 <= j && j < len(actualObjects) ==> hastype("*k8s.io/apimachinery/pkg/apis/meta/v1/unstructured.Unstructured", actualObjects[j])
+//@   loop @reconcilePhaseObject invariant [C03] len(rec.failures) == 0 ==> (forall j int :: 0 <= j && j < len(actualObjects) ==> probedOK(actualObjects[j]))
 //@   ensures [C03] err == nil && len(res.PhaseName) == 0 && len(res.FailedProbes) == 0 ==> len(actualObjects) == len(phase.Objects)
 //@   ensures [C03] err == nil && len(res.PhaseName) == 0 && len(res.FailedProbes) == 0 ==> (forall j int :: 0 <= j && j < len(actualObjects) ==> probedOK(actualObjects[j]))
 
